@@ -12,6 +12,7 @@ import itertools
 
 import numpy as np
 
+from ..lib.core import fmt
 from ..lib.impl import Raised, call
 from ..lib.leangen import llist
 
@@ -25,8 +26,9 @@ CLAIM = dict(
     "direction - all also for the tables AS THE CODE BUILDS THEM (connTable / revTable: initial array + assignments through index arrays, "
     "conn_table_eq, rev_table_eq, rev_table_inverse); interior/exterior partition each axis; interior faces in dimension >= 2 are exactly those "
     "whose tangential neighbour faces all exist, while in 1-D the code slices the NORMAL axis (interior = all faces but the first and last, "
-    "interior_1d) - a different notion, stated as it is; corner tables (tabulated from the code) lie on the face. generate_grid is Grid(image."
-    "num_voxels, image.voxel_size): no separate theorem, tied by shape / voxel-size / full-table comparison on fresh images and after in-place "
+    "interior_1d) - a different notion, stated as it is; corner tables (tabulated from the code) lie on the face. generate_grid is modelled on the image-geometry model CS of C01 "
+    "(generateGrid; generate_grid_volume: accepted by the guard, image voxel shape, voxel volume x cells = image volume) and tied exactly on "
+    "1-D..3-D scalar/vector images and series (trailing axes do not enter), plus full-table comparison on fresh images and after in-place "
     "shape changes. Tie: every public Grid table (incl. cell_index, face_index, faces_shape) equals the model on all 186 shapes of the stated "
     "range plus random larger/thin shapes.",
     note="connectivity / reverse_connectivity are dumped from the scatter-built model; numpy slicing + ravel('F') of the index arrays is modelled "
@@ -313,6 +315,42 @@ def run(ctx):
         for what in WHATS:
             ilines.append(request(what, shape))
             iimpl.append(impl_line(g, what))
+    # generate_grid as a function of the image geometry (builder a's CS model): 1-D..3-D images, scalar / vector valued,
+    # single images and series - trailing axes must not enter; voxel volume x number of cells = image volume (exact, dyadic)
+    glines, gimpl = [], []
+    for k in range(ctx.pick(12, 80)):
+        dim = (1, 2, 3)[k % 3]
+        shape = tuple(rng.choice((1, 2, 3, 4, 5, 8)) for _ in range(dim))
+        hs = [rng.choice((0.25, 0.5, 1.0, 2.0, 0.75, 1.5)) for _ in range(dim)]
+        dims = [s * h for s, h in zip(shape, hs)]
+        series, scalar = (k // 3) % 2 == 1, (k // 6) % 2 == 0
+        full = shape + ((3,) if series else ()) + (() if scalar else (2,))
+        kw = dict(space_dim=dim, dimensions=list(dims), scalar=scalar, series=series)
+        if series:
+            kw["time"] = [0, 1, 2]
+        img = call(d.Image, np.zeros(full), **kw)
+        rp = {"shape": list(shape), "dimensions": dims, "series": series, "scalar": scalar}
+        if isinstance(img, Raised):
+            ctx.fail(f"C07:generate_grid:Image:raises:dim={dim}", f"Image{full} (series={series}, scalar={scalar}) raises {img}", rp)
+            continue
+        g = call(d.generate_grid, img)
+        ctx.count(("gengrid", shape, tuple(dims), series, scalar))
+        glines.append(f"gengrid {dim} " + " ".join(map(str, shape)) + f" {dim} " + " ".join(fmt(x) for x in dims))
+        if isinstance(g, Raised):
+            gimpl.append(repr(g))
+            ctx.fail(f"C07:generate_grid:raises:dim={dim}", f"generate_grid on a {full} image (series={series}, scalar={scalar}) raises {g}", rp)
+            continue
+        try:
+            vs = [float(x) for x in np.asarray(g.voxel_size).ravel()]
+            volcells = float(np.prod(vs)) * int(g.num_cells)
+            gimpl.append(sep([ints(g.shape), " ".join(fmt(x) for x in vs), fmt(volcells), fmt(float(np.prod(dims))), "ok"]))
+            if tuple(int(x) for x in g.shape) != shape or volcells != float(np.prod(dims)):
+                ctx.fail(f"C07:generate_grid:volume:dim={dim}", f"generate_grid on a {full} image: grid shape {tuple(g.shape)}, voxel volume x cells = {volcells!r}, "
+                         f"image volume {float(np.prod(dims))!r}", rp)
+        except Exception as e:  # noqa: BLE001
+            gimpl.append(repr(Raised(e)))
+    ctx.correspond("generate-grid-geometry", glines, gimpl)
+
     # call sequences on ONE image object: derive a grid, change the image's voxel shape in place (what any shape-altering
     # correction with overwrite=True does via `image.img = ...`), copy it, derive again: the grid must follow from the
     # image's CURRENT shape and voxel size (no state carried over between calls)
